@@ -1,7 +1,7 @@
 """Bounded stand-in for C16 (loaders: extract_loci, read_meme) — never counted as proved.
 
 extract_loci.  A seeded synthetic "world" (2-4 chromosomes of 60-300 bp with lower-case runs and N
-runs, four integer-valued signal tracks) is written as FASTA + bigWig files and also kept in
+runs, four integer-valued signal tracks and one with negative / fractional values) is written as FASTA + bigWig files and also kept in
 memory (one-hot numpy arrays built by a plain Python loop, numpy signal arrays).  For every case
 the oracle, written from the property statement, walks the loci in input order (round-robin over
 the locus sets) and classifies each one:
@@ -19,8 +19,8 @@ The returned rows must be, in order, exactly the expected rows of all KEEP loci 
 the MAY loci (decided by a small dynamic programme over row contents), truncated to the first
 n_loci kept rows when a cap is given.  Expected rows are direct slices of the generated genome
 strings (upper-cased, N = all-zero column) and signal arrays.  Every case is evaluated with file
-inputs and with in-memory inputs (and mixed), each compared with the same oracle, so the two
-are identical whenever both pass.  in_signals (not named in the statement) are checked as the
+inputs and with in-memory inputs (and mixed), each compared with the same oracle, and all forms
+of one case must return the same rows (the MAY loci included).  in_signals (not named in the statement) are checked as the
 in-window slice of their tracks because their rows must stay aligned with the sequences.
 
 Not asserted: the order when `chroms` is combined with several locus sets is accepted both as
@@ -87,7 +87,7 @@ from tangermeme.io import extract_loci, read_meme
 
 SCOPE = {
     'quick': 'extract_loci: 12 seeded worlds (2-4 chromosomes of 60-300 bp, lower-case and N runs, 5 signal tracks: 4 integer, 1 with '
-             'negative and fractional values) x 60 seeded cases each: in/out windows 1-40 (odd/even, in <, =, > out, 1-3 over-weighted), '
+             'negative and fractional values) x 80 seeded cases each: in/out windows 1-40 (odd/even, in <, =, > out, 1-3 over-weighted), '
              'jitter 0-9, 1-4 locus sets of 0-12 loci (DataFrame with default / reversed / duplicate / unsorted / string index, int64 or '
              'int32 columns, or BED file; list, tuple or bare) with loci placed at random and with the union window at -1, 0, +1 of both '
              'chromosome ends, exact duplicate loci, zero-length loci, chroms None or a subset, 0-3 signals, 0-2 in_signals, min/max '
@@ -96,7 +96,8 @@ SCOPE = {
              'repeated call on the same input objects; all forms of a case must return identical rows; read_meme: 600 generated files '
              '(widths 1-30, log-odds / comment blocks before the matrix) + every combination of 6 separator layouts x 9 end-of-file '
              'layouts x LF/CRLF on 2-motif files',
-    'thorough': 'extract_loci: 60 worlds x 100 cases, same generators; read_meme: 8000 generated files + the full layout grid on 1-, 2- and 3-motif files',
+    'thorough': 'extract_loci: 60 worlds x 100 cases, same generators, forms and cross-form identity as in quick; read_meme: 8000 generated files '
+                '(widths 1-30, log-odds / comment blocks) + the full 6 x 9 x 2 layout grid on 1-, 2- and 3-motif files',
 }
 
 # see POSSIBLE DEFECT in the module docstring; when True, every second DataFrame gets columns named ('a', 'b', 'c')
@@ -668,7 +669,7 @@ class _Lim:
 
 def _run_loci(rep, lim, budget_frac):
     thorough = rep.tier == 'thorough'
-    n_worlds, n_cases = (60, 100) if thorough else (12, 60)
+    n_worlds, n_cases = (60, 100) if thorough else (12, 80)
     t_stop = rep.budget_s * (1 - budget_frac)
     for wi in range(n_worlds):
         gseed = rep.seed * 1000 + wi
@@ -917,6 +918,7 @@ def _run_meme(rep, lim):
 
 
 def run(rep):
+    torch.set_num_threads(1)
     lim = _Lim(rep)
     try:
         _run_loci(rep, lim, budget_frac=0.7)
